@@ -12,6 +12,12 @@ common.build_go()
 impl = common.Impl()
 gen_tables.regenerate(impl.call("automata"))
 impl.close()
+# the clause regexps (C09/C10/C20 models): translator harness/cmd/vregex; a failure is reported by ./check C09
+try:
+    from vlib import regen_re
+    regen_re.build_regex_tables()
+except Exception as e:
+    print("setup: clause regexp table not regenerated:", e)
 # the access table of C14 (translator harness/cmd/vaccess); a failure here is reported by ./check C14
 try:
     from vlib import c14
